@@ -36,6 +36,36 @@ impl std::io::Write for PlainWriter {
         Ok(())
     }
 }
+/// A buffering adapter in front of a report-oriented device (what `BufWriter<hid device>` is): writes
+/// are collected, and a flush hands the collected bytes to the device as ONE report, of which a HID
+/// device takes 64 bytes.  What is never flushed never reaches the device.
+#[derive(Default)]
+struct ReportWriter {
+    buf: Vec<u8>,
+    reports: Vec<Vec<u8>>,
+}
+impl std::io::Write for ReportWriter {
+    fn write(&mut self, b: &[u8]) -> std::io::Result<usize> {
+        self.buf.extend_from_slice(b);
+        Ok(b.len())
+    }
+    fn flush(&mut self) -> std::io::Result<()> {
+        if !self.buf.is_empty() {
+            self.reports.push(std::mem::take(&mut self.buf));
+        }
+        Ok(())
+    }
+}
+/// the reports such a device receives for one message (None: refused)
+fn send_reports(channel: u32, cmd: Command, payload: &[u8]) -> Result<Option<Vec<Vec<u8>>>, String> {
+    par::catch(|| match Message::new(channel, cmd, payload) {
+        Err(_) => None,
+        Ok(m) => {
+            let mut w = ReportWriter::default();
+            m.send(&mut w).ok().map(|_| w.reports)
+        }
+    })
+}
 /// the same message through the plain writer: the concatenation of what it was handed
 fn send_plain(channel: u32, cmd: Command, payload: &[u8]) -> Result<Option<(Vec<u8>, Vec<usize>)>, String> {
     par::catch(|| match Message::new(channel, cmd, payload) {
@@ -97,6 +127,26 @@ pub fn eval_single(c: &Single) -> (Vec<Finding>, &'static str) {
             if bytes != wire {
                 bad("writer-dependent", format!("a writer that only implements write/flush receives {} bytes in calls of {:?}, a Vec receives {} bytes", bytes.len(), &calls[..calls.len().min(6)], wire.len()));
             }
+        }
+    }
+    // the same message through a buffering adapter in front of a report-oriented device: the
+    // packets the receiver gets are the flushed reports (64 bytes of each)
+    if let Ok(Some(reports)) = send_reports(c.channel, cmd, &payload) {
+        let got = par::catch(|| {
+            let mut h = ChannelHandler::default();
+            let mut out = None;
+            for r in &reports {
+                let mut p = r.clone();
+                p.truncate(64);
+                p.resize(64, 0);
+                if let Some(m) = h.handle_packet(&p) {
+                    out = Some((m.channel, m.payload));
+                }
+            }
+            out
+        });
+        if got != Ok(Some((c.channel, payload.clone()))) {
+            bad("report-device-loses-message", format!("through a buffering adapter that hands each flush to a report-oriented device the receiver does not get the message: the device received {} reports of {:?} bytes for {} packets", reports.len(), reports.iter().map(|r| r.len()).take(4).collect::<Vec<_>>(), wire.len() / 64));
         }
     }
     if wire.len() % 64 != 0 || wire.is_empty() {
@@ -902,7 +952,7 @@ pub fn run(ctx: &Ctx) -> Result<Run, String> {
     stats.samples.push(json!({"starve": sv[sv.len() / 2]}));
     let mut run = Run::from_stats(
         "model_checking",
-        "single channel: every payload length 0..7700 and 65535/65536/70000 (all 9 commands x 4 channel ids at the boundary lengths, rotating command/channel and 3 content patterns elsewhere): written into a Vec and into a writer that only implements write/flush (same bytes); written bytes parsed by the harness (64-byte packets, header layout, sequence numbers, zero padding, packet count) and fed to a fresh receiver, and the message the receiver delivers is sent again (must be written as the same packets); interleavings: stateright BFS whose state is the real ChannelHandler (cloned via the verif hook) plus the next-packet index per stream, over all combinations of 2, 3 and 4 concurrently transmitting channels with payload lengths from {0,57,58,116,117,175,234} (1..4 packets; thorough adds streams of 5 and 6 packets for 2 and 3 channels), channels sending two messages back to back, and one stray continuation packet for an idle channel at any point; deduplicated on (indices, hook snapshot); run twice with different thread counts; cross-checked by a hook-free enumeration of all complete interleavings for 2 and 3 channels; many channels: 1..300 (thorough 4096) channels each start a two-packet message (the first optionally twice) and then complete, in channel order and in reverse – every message is delivered; a long-lived receiver: 600 000 (thorough 6 000 000) completed messages of 1..3 packets on three channels through ONE handler, each delivered unaltered, and after 1, 2, 4, ... and all of them the maximal 7608-byte message is still reassembled; commands across channels: a complete message of each of the 9 commands with 14 short payloads (empty, single bytes 0/1/2/5/10/11/0x7f/0xff, pairs, 4, 8 and 17 bytes) on one channel before, inside or twice before a two-packet message of another channel (also the broadcast channel), followed by a further message of the first channel - every message is delivered, unaltered, by its own last packet; failing writers: a write call fails at any of the first eight / last two packets with five error kinds, once or from then on – success is never reported for a message the writer did not receive in full and in order; starvation: a 3-packet message held back after its first / second packet while other channels send every number of packets 0..300 (thorough 0..1100) and 1024, 2048, 4096, 10000 as whole messages in three traffic shapes (maximal messages, two channels alternating single packets, 2-packet messages), each of which must be delivered too",
+        "single channel: every payload length 0..7700 and 65535/65536/70000 (all 9 commands x 4 channel ids at the boundary lengths, rotating command/channel and 3 content patterns elsewhere): written into a Vec, into a writer that only implements write/flush (same bytes) and into a buffering adapter that hands each flush as one report to a report-oriented device (the receiver fed with 64 bytes of each report gets the message); written bytes parsed by the harness (64-byte packets, header layout, sequence numbers, zero padding, packet count) and fed to a fresh receiver, and the message the receiver delivers is sent again (must be written as the same packets); interleavings: stateright BFS whose state is the real ChannelHandler (cloned via the verif hook) plus the next-packet index per stream, over all combinations of 2, 3 and 4 concurrently transmitting channels with payload lengths from {0,57,58,116,117,175,234} (1..4 packets; thorough adds streams of 5 and 6 packets for 2 and 3 channels), channels sending two messages back to back, and one stray continuation packet for an idle channel at any point; deduplicated on (indices, hook snapshot); run twice with different thread counts; cross-checked by a hook-free enumeration of all complete interleavings for 2 and 3 channels; many channels: 1..300 (thorough 4096) channels each start a two-packet message (the first optionally twice) and then complete, in channel order and in reverse – every message is delivered; a long-lived receiver: 600 000 (thorough 6 000 000) completed messages of 1..3 packets on three channels through ONE handler, each delivered unaltered, and after 1, 2, 4, ... and all of them the maximal 7608-byte message is still reassembled; commands across channels: a complete message of each of the 9 commands with 14 short payloads (empty, single bytes 0/1/2/5/10/11/0x7f/0xff, pairs, 4, 8 and 17 bytes) on one channel before, inside or twice before a two-packet message of another channel (also the broadcast channel), followed by a further message of the first channel - every message is delivered, unaltered, by its own last packet; failing writers: a write call fails at any of the first eight / last two packets with five error kinds, once or from then on – success is never reported for a message the writer did not receive in full and in order; starvation: a 3-packet message held back after its first / second packet while other channels send every number of packets 0..300 (thorough 0..1100) and 1024, 2048, 4096, 10000 as whole messages in three traffic shapes (maximal messages, two channels alternating single packets, 2-packet messages), each of which must be delivered too",
         true,
         stats,
     );
